@@ -251,7 +251,17 @@ type vskT struct {
 // class D20 (skipped parts are only bracket/quote-balanced).
 func H_C05_skipped_member(t *verifrt.T) {
 	n := t.Param("N")
-	val := t.Bytes("val", n)
+	var val []byte
+	switch t.Choice("form", 3) {
+	case 0: // any bytes
+		val = t.Bytes("val", n)
+	case 1: // an object holding a string of two free bytes (escapes inside skipped objects)
+		s := t.Bytes("str", 2)
+		val = append(append([]byte(`{"k":"`), s...), `"}`...)
+	case 2: // an array holding a string of two free bytes and a nested empty object
+		s := t.Bytes("str", 2)
+		val = append(append([]byte(`["`), s...), `",{}]`...)
+	}
 	for i := range val {
 		t.Assume(val[i] != 0)
 	}
